@@ -12,18 +12,24 @@
 (* (a partition may break a request or merely delay it); C14 only demands that  *)
 (* every outcome is the handler's reply for that very request, a connection     *)
 (* error or a timeout, that no handler runs twice, and the timeout bound.       *)
+(* A reply travels in two parts, its head and its body (client.rs: send_parts   *)
+(* returns with the head, from_body reads the rest): a fault can land between   *)
+(* the two.  BodyUncovered = TRUE is the code as it was before the repair       *)
+(* (the timeout covered the head only, a body cut off was an internal error):   *)
+(* TLC then finds C14_TimeoutBound and C14_Outcome violated.                    *)
 EXTENDS Naturals, Sequences, FiniteSets, TLC, Json
 
 CONSTANTS Reqs,        \* request ids
           TmoTicks,    \* the timeouts a request may be sent with, in ticks (0 = without timeout)
-          MaxFaults, MaxTicks, EmitSched
+          MaxFaults, MaxTicks, EmitSched,
+          BodyUncovered   \* TRUE: the unsound variation (timeout ends with the reply's head)
 
 VARIABLES link,     \* "up" | "held" | "down"
           conn,     \* the lazy connection exists
-          st,       \* r -> "idle" | "connecting" | "to_server" | "at_server" | "to_client" | "done"
+          st,       \* r -> "idle" | "connecting" | "to_server" | "at_server" | "to_client" | "body" | "done"
           tmo,      \* r -> the timeout the request was sent with, in ticks (0 = none)
           age,      \* r -> ticks since it was sent
-          out,      \* r -> "none" | "reply" | "ConnectionError" | "Timeout"
+          out,      \* r -> "none" | "reply" | "ConnectionError" | "Timeout" (| "InternalError" in the unsound variation)
           runs,     \* r -> handler executions
           faults, ticks, faulted,
           sched     \* the external schedule so far (faults, sends, ticks) - replayed in turmoil
@@ -68,17 +74,26 @@ ToServer(r) == /\ st[r] = "to_server" /\ link = "up" /\ st' = [st EXCEPT ![r] = 
                /\ UNCHANGED <<link, conn, tmo, age, out, faults, ticks, faulted, sched>>
 Handle(r) == /\ st[r] = "at_server" /\ st' = [st EXCEPT ![r] = "to_client"]
              /\ UNCHANGED <<link, conn, tmo, age, out, runs, faults, ticks, faulted, sched>>
-ToClient(r) == /\ st[r] = "to_client" /\ link = "up" /\ Finish(r, "reply")
-               /\ UNCHANGED <<link, conn, tmo, age, runs, faults, ticks, faulted, sched>>
+\* the reply's head reaches the client (send_parts returns) ...
+ToClient(r) == /\ st[r] = "to_client" /\ link = "up" /\ st' = [st EXCEPT ![r] = "body"]
+               /\ UNCHANGED <<link, conn, tmo, age, out, runs, faults, ticks, faulted, sched>>
+\* ... then its body (from_body has read it to the end)
+BodyArrives(r) == /\ st[r] = "body" /\ link = "up" /\ Finish(r, "reply")
+                  /\ UNCHANGED <<link, conn, tmo, age, runs, faults, ticks, faulted, sched>>
 Broken(r) == /\ st[r] \in {"to_server", "to_client", "at_server"} /\ faulted /\ Finish(r, "ConnectionError")
              /\ UNCHANGED <<link, conn, tmo, age, runs, faults, ticks, faulted, sched>>
+\* the connection is cut while the body is read
+BodyBroken(r) == /\ st[r] = "body" /\ faulted
+                 /\ Finish(r, IF BodyUncovered THEN "InternalError" ELSE "ConnectionError")
+                 /\ UNCHANGED <<link, conn, tmo, age, runs, faults, ticks, faulted, sched>>
 TimeoutFires(r) == /\ Active(r) /\ tmo[r] > 0 /\ age[r] >= tmo[r] /\ Finish(r, "Timeout")
+                   /\ (BodyUncovered => st[r] # "body")
                    /\ UNCHANGED <<link, conn, tmo, age, runs, faults, ticks, faulted, sched>>
 
-Overdue == \E r \in Reqs : Active(r) /\ tmo[r] > 0 /\ age[r] >= tmo[r]
+Overdue == \E r \in Reqs : Active(r) /\ tmo[r] > 0 /\ age[r] >= tmo[r] /\ (BodyUncovered => st[r] # "body")
 \* time only passes while no request can make progress (network and handler steps are fast)
 CanProgress == \E r \in Reqs : \/ st[r] = "at_server"
-                                \/ (link = "up" /\ st[r] \in {"connecting", "to_server", "to_client"})
+                                \/ (link = "up" /\ st[r] \in {"connecting", "to_server", "to_client", "body"})
 Tick ==
   /\ ticks < MaxTicks /\ ~Overdue /\ ~CanProgress
   /\ ticks' = ticks + 1
@@ -89,7 +104,7 @@ Tick ==
 Next ==
   \/ \E k \in {"partition", "hold", "repair", "release"} : Fault(k)
   \/ \E r \in Reqs, t \in TmoTicks : Send(r, t)
-  \/ \E r \in Reqs : ConnectOk(r) \/ ConnectFail(r) \/ ToServer(r) \/ Handle(r) \/ ToClient(r) \/ Broken(r) \/ TimeoutFires(r)
+  \/ \E r \in Reqs : ConnectOk(r) \/ ConnectFail(r) \/ ToServer(r) \/ Handle(r) \/ ToClient(r) \/ BodyArrives(r) \/ Broken(r) \/ BodyBroken(r) \/ TimeoutFires(r)
   \/ Tick
 Spec == Init /\ [][Next]_vars
 
